@@ -45,9 +45,9 @@ def recorded (keep : Option (List String)) (r : Resp) : Resp :=
 
 /-- what the request brings -/
 structure Req where
-  key : Option Key     -- `some k`: unsafe method carrying the valid key k; `none`: middleware steps aside
+  key : Option Key     -- `some k`: non-safe method (POST, …) carrying the valid key k; `none`: middleware steps aside
                        --  (Config.Next: safe method, or no key header)
-  invalid : Bool       -- unsafe method whose key fails KeyHeaderValidate
+  invalid : Bool       -- non-safe method whose key fails KeyHeaderValidate
   fails : Bool         -- the downstream handler returns an error
   resp : Resp := ⟨200, "", []⟩   -- what the downstream handler answers for this request when it succeeds
   deriving Repr
@@ -87,6 +87,7 @@ structure Thread where
   ran : Bool := false     -- the downstream handler was executed for this request
   doneAt : Nat := 0       -- second at which the handler completed successfully (ghost)
   stored : Bool := false  -- its Storage.Set succeeded (ghost)
+  setAt : Nat := 0        -- second at which its Storage.Set succeeded (ghost)
   ans : Option Resp := none  -- the response answered (meaningful when `out` is `own` or `replay`): the handler's
                              --  own response, or the record read from the storage
 
@@ -172,7 +173,7 @@ def stepThr (life : Nat) (g : G) (t : Tid) : Option G :=
     | some k =>
       some ({ g with store := fun k' => if k' = k then some (t, g.now + life) else g.store k',
                      vals := fun k' => if k' = k then some (recorded g.keep th.req.resp) else g.vals k' }.setThread t
-        { th with pc := .atUnlock, out := .own, stored := true })
+        { th with pc := .atUnlock, out := .own, stored := true, setAt := g.now })
   | .atUnlock => some (g.setThread t { th with pc := .unlockLookup })
   | .unlockLookup =>
     match th.req.key with
